@@ -9,7 +9,7 @@ BASE_CONSTS = dict(
     FaultKinds=set(), FaultBudget=0,
     Watchers=set(), WatchStarts={0}, WatchPrefixes={0}, PrefixOf="<- MCPrefixOf",
     CacheSize=2, SubCap=2, SeqDetail=False,
-    Readers=set(), Compactors=set(), CompactRevs=set(), MaxCompacts=0, DelFaults=set(),
+    Readers=set(), ReadRevs={0}, MaxReads=0, SnapAtTs=False, Compactors=set(), CompactRevs=set(), MaxCompacts=0, DelFaults=set(), CompactDetail=False,
     EagerSeq=False, FixedOps="<- MCNoFixedOps", LazyWatchers=set(), AtomicWrites=False, GenHist=False,
 )
 
@@ -110,6 +110,10 @@ def check_write(prop, tier, seed):
         plans.append(("badger", dict(BASE_CONSTS), "simulate", nsim // 8, 4, []))
         plans.append(("tikv", dict(BASE_CONSTS, ConflictCarriesValue=False), "simulate", nsim // 4, 8, []))
         plans.append(("metrics", dict(BASE_CONSTS), "simulate", nsim // 8, 4, []))
+        if prop == "C04":
+            # "for every mix of outcomes": storage errors and unknown outcomes on any commit, also on the repair write
+            plans.append(("memkv", dict(BASE_CONSTS, InitStates={"none", "live", "deleted"}, ExpSet={0, 1, 4},
+                                        FaultKinds={"err", "unka", "unkn"}, FaultBudget=2), "simulate", nsim // 2, 16, []))
         if tier == "thorough":
             plans.append(("memkv", dict(BASE_CONSTS), "exhaustive", 0, 16, []))
         alltraces = []
